@@ -37,9 +37,12 @@ def rat(x, squared: bool = False) -> list[int]:
 
 def encode(value, squared: bool = False) -> dict:
     """numpy array / DataArray / scalar -> {"shape": [...], "data": [[num, den], ...]} (row-major)."""
+    dims = [str(d) for d in value.dims] if isinstance(value, xr.DataArray) else None
     if isinstance(value, (xr.DataArray, xr.Dataset)):
         value = value.values
     a = np.asarray(value)
+    if dims is not None:
+        return {"shape": [int(s) for s in a.shape], "data": [rat(v, squared) for v in a.reshape(-1)], "dims": dims}
     if a.dtype == object:
         raise NotRational(f"object array {a!r}"[:120])
     return {"shape": [int(s) for s in a.shape], "data": [rat(v, squared) for v in a.reshape(-1)]}
@@ -73,16 +76,31 @@ class NotInBackendApi(Exception):
     """The backend's API cannot express the call (the xarray backend names the dimension, a name has no sign)."""
 
 
-# kinds whose axis the xarray backend takes as a dimension NAME; `stack` takes an int there but a negative one is
-# left out for xarray (see the rule text of c15.py and proposed_fixes/C15_xarray_stack_negative_axis.diff)
+# kinds whose axis the xarray backend takes as a dimension NAME (a name has no sign)
 XR_AXIS_BY_NAME = ("single", "concat")
+
+
+def _mixed_rank_args(case: dict, is_xr: bool) -> list:
+    """Arguments of different rank (kinds b*): genuine arrays also for 0-d; for xarray the dimensions of an argument are
+    named by their position in the broadcast (= largest) shape, which is how NumPy's trailing alignment reads by name."""
+    rank = max(len(a["shape"]) for a in case["args"])
+    out = []
+    for a in case["args"]:
+        arr = np.array(a["data"], dtype=np.float64).reshape(a["shape"])
+        out.append(xr.DataArray(arr, dims=[f"d{rank - len(a['shape']) + i}" for i in range(len(a["shape"]))]) if is_xr else arr)
+    return out
 
 
 def call_backend(backends, case: dict, wrap):
     """Run the backend call a case of Arrays.tla describes; `wrap` is as_numpy or as_xarray."""
     is_xr = wrap is as_xarray
-    arrs = [wrap(a, case.get("dt", "f8")) for a in case["args"]]
     k, op, axis = case["k"], case["op"], case["axis"]
+    if k in ("bstack", "bmulti", "bbin"):
+        arrs = _mixed_rank_args(case, is_xr)
+        if k == "bstack":
+            return _variadic(backends, "stack", arrs, axis, is_xr)
+        return getattr(backends, op)(*arrs)
+    arrs = [wrap(a, case.get("dt", "f8")) for a in case["args"]]
     if is_xr and axis < 0 and k in XR_AXIS_BY_NAME:
         raise NotInBackendApi(k)
     if k == "multi":
